@@ -3,12 +3,21 @@
 
   PROVED here (for every outcome sequence, batch-size sequence, cancel pattern, perturbation, pick
   sequence, count): the limits of `_noisy_sampling` and of the `samples` glue, the exact stopping
-  condition, the performance formulas, the total of `probs_to_sample_count` (with termination of
-  its repair loop under every fair pick sequence), totals of the samples/counts/probs conversions.
+  condition, the performance formulas, legality of every appended sample (heralds met, post-selection
+  passed, heralded modes removed, at least `filter` photons outside the heralded modes), the total
+  of `probs_to_sample_count` (with termination of its repair loop under every fair pick sequence),
+  totals of the samples/counts/probs conversions.  `sampler_filter_fails_on_old_code` is the
+  counter-example theorem for the defect repaired by fixes/C09-sampler-filter-heralds.diff.
 
-  NOT a theorem (validated statistically by `harness/c09.py`, labelled VALIDATION in the evidence):
-  samples follow the distribution strong simulation computes; performances estimate the same
-  quantities; seed reproducibility of the Python-layer random paths.
+  FULL STATEMENT of the property, of which the above is the provable part (`…` = not a theorem):
+    … samples returned by a processor follow the same conditional distribution that strong
+      simulation of the same processor computes, and the reported performances estimate the same
+      quantities                                   — statistical statement about a native sampler;
+    … fixing the seed makes every random choice of the Python layer repeat exactly
+                                                   — statement about three external generators.
+  Both are VALIDATED on every run by `harness/c09.py` (goodness-of-fit with finite-sample thresholds
+  at run-wise false-alarm 1e-9; each random path run twice under `pcvl.random_seed`) and labelled
+  as validation in the evidence; no theorem here carries them.
 -/
 import PercevalModel.Lemmas.C09
 import Mathlib.Algebra.Order.Field.Rat
